@@ -3,6 +3,7 @@
 Finite domain, enumerated completely (15 keys x intervals -48..48, interval pairs -13..13, 128 x 128 pitch pairs,
 128 pitches x distances -12..12), plus Hypothesis integers of arbitrary magnitude for the interval.
 """
+import numpy
 from hypothesis import strategies as st
 
 from pbt.runner import Outcome
@@ -12,7 +13,7 @@ ID = "C20"
 EXHAUSTIVE = True
 MIN_NONTRIVIAL = 0.5
 RULE = ("exhaustive enumeration of (key, interval in -48..48), (key, a, b in -13..13) for additivity, all 128x128 pitch "
-        "pairs in blocks of one 'from' pitch, (pitch, distance in -12..12); plus Hypothesis-drawn intervals of "
+        "pairs in blocks of one 'from' pitch (as Python ints and as numpy uint8/int8/int16/int64 scalars), (pitch, distance in -12..12); plus Hypothesis-drawn intervals of "
         "arbitrary magnitude. Oracle: tonic/scale read from KeyNoteMapping shifted mod 12; major-scale shape; "
         "distance in [-5,6], congruent to position difference, from_distance lands on target; one step = a fifth. "
         "Non-trivial = every case except the identity interval on C major; distinct by case digest.")
@@ -41,6 +42,9 @@ def enumerate_cases(params):
         yield {"kind": "scale", "key": k}
     for a in range(128):
         yield {"kind": "cof", "a": a, "bs": list(range(128))}
+    for a in range(128):
+        for np_type in ("uint8", "int8", "int16", "int64"):
+            yield {"kind": "cof", "a": a, "bs": list(range(128)), "np": np_type}
     for a in range(128):
         yield {"kind": "from_distance", "a": a, "ds": list(range(-12, 13))}
 
@@ -109,7 +113,11 @@ def check(case):
             out.fail("scale-not-major", f"{key}: tonic {tonic} scale {sorted(scale)}")
     elif kind == "cof":
         a = case["a"]
+        cast = getattr(numpy, case["np"]) if case.get("np") else int
+        if case.get("np"):
+            out.label("numpy-" + case["np"])
         for b in case["bs"]:
+            a, b = cast(case["a"]), cast(b)
             try:
                 d = CircleOfFifths.get_distance(a, b)
                 pa, pb = CircleOfFifths.get_position(a), CircleOfFifths.get_position(b)
